@@ -170,7 +170,10 @@ def mk_light(sp):
 def mk_intersection(sp):
     from commonroad.scenario.intersection import Intersection, IntersectionIncomingElement
     incs = [IntersectionIncomingElement(i["id"], set(i.get("lanelets", [])), set(i.get("right", [])), set(i.get("straight", [])), set(i.get("left", [])),
-                                        i.get("left_of")) for i in sp["incomings"]]
+                                        None if i.get("left_of_set_later") else i.get("left_of")) for i in sp["incomings"]]
+    for inc, i in zip(incs, sp["incomings"]):
+        if i.get("left_of_set_later"):
+            inc.left_of = i.get("left_of")          # through the public setter, after construction
     return Intersection(sp["id"], incs, set(sp.get("crossings", [])))
 
 
